@@ -254,12 +254,12 @@ type workerOut struct {
 	progress string // file with the index of the run in progress
 	worker   int
 	cold     bool
-	stats map[string]any
-	raw   json.RawMessage
-	viol  []violationMsg
-	err   error
-	log   string
-	race  string
+	stats    map[string]any
+	raw      json.RawMessage
+	viol     []violationMsg
+	err      error
+	log      string
+	race     string
 }
 
 // workerTimeout is a watchdog for harness liveness only (a hung worker ends the
@@ -298,6 +298,9 @@ func runWorker(bin string, args []string, gomaxprocs int, raceLog string) *worke
 func runWorkerCPU(bin string, args []string, gomaxprocs int, raceLog string, ncpu int) *workerOut {
 	ctx, cancel := context.WithTimeout(context.Background(), workerTimeout(args))
 	defer cancel()
+	if len(args) > 0 && args[0] == "run" && workerOfArgs(args) >= 200000 {
+		args = append(append([]string{}, args...), "-gcoff") // collector process
+	}
 	c := exec.CommandContext(ctx, bin, args...)
 	env := append(goEnv(), fmt.Sprintf("VSIM_NCPU=%d", ncpu))
 	if gomaxprocs > 0 {
@@ -505,8 +508,10 @@ func runPass(b *build, prop string, seed uint64, secs float64, nWorkers int, rac
 		coldShare = 0.25
 		coldRuns = "4"
 	}
-	longSecs := secs * (1 - coldShare)
+	gcShare := 0.08
+	longSecs := secs * (1 - coldShare - gcShare)
 	coldSecs := secs * coldShare
+	gcSecs := secs * gcShare
 	var mu sync.Mutex
 	var outs []*workerOut
 	var wg sync.WaitGroup
@@ -535,6 +540,25 @@ func runPass(b *build, prop string, seed uint64, secs float64, nWorkers int, rac
 				prog := filepath.Join(b.Dir, fmt.Sprintf("progress-%v-%d", race, id))
 				o := runWorker(bin, []string{"run", "-prop", prop, "-seed", fmt.Sprint(seed), "-worker", fmt.Sprint(id), "-runs", coldRuns, "-outdir", b.Dir, "-cold", "-known", knownFilePath(), "-progress", prog}, 2, raceLog)
 				o.progress, o.worker, o.cold = prog, id, true
+				mu.Lock()
+				outs = append(outs, o)
+				mu.Unlock()
+				if len(o.viol) > 0 || o.stats == nil {
+					break
+				}
+			}
+			// collector phase: processes of a few dozen ordinary runs, half of them
+			// with collector faults (small heap: a collection is cheap; short
+			// history: the allocator state is replayable)
+			tg := time.Now()
+			for k := 0; time.Since(tg).Seconds() < gcSecs; k++ {
+				id := 200000 + k*nWorkers + w
+				if race {
+					raceLog = filepath.Join(b.Dir, fmt.Sprintf("race-g%d", id))
+				}
+				prog := filepath.Join(b.Dir, fmt.Sprintf("progress-%v-%d", race, id))
+				o := runWorker(bin, []string{"run", "-prop", prop, "-seed", fmt.Sprint(seed), "-worker", fmt.Sprint(id), "-runs", "40", "-outdir", b.Dir, "-known", knownFilePath(), "-progress", prog}, 2, raceLog)
+				o.progress, o.worker = prog, id
 				mu.Lock()
 				outs = append(outs, o)
 				mu.Unlock()
@@ -665,7 +689,8 @@ func runProperty(prop, tier string, seed uint64) int {
 	// ---- aggregate
 	agg := map[string]float64{}
 	var totalRuns, totalOps, nonTrivial, coldRuns float64
-	var processes, coldProcesses int
+	var processes, coldProcesses, gcProcesses int
+	var gcRuns float64
 	distinct := map[uint64]struct{}{}
 	sigs := map[uint64]struct{}{}
 	pairs := map[string]bool{}
@@ -697,6 +722,10 @@ func runProperty(prop, tier string, seed uint64) int {
 			}
 			totalRuns += num(o.stats, "runs")
 			processes++
+			if num(o.stats, "worker") >= 200000 {
+				gcProcesses++
+				gcRuns += num(o.stats, "runs")
+			}
 			if b, _ := o.stats["cold"].(bool); b {
 				coldProcesses++
 				coldRuns += num(o.stats, "runs")
@@ -892,6 +921,8 @@ func runProperty(prop, tier string, seed uint64) int {
 		"pool_miss_empty":                   int64(agg["sim.PoolMissEmpty"]),
 		"pool_put_dropped":                  int64(agg["sim.PoolDrops"]),
 		"pool_cleared":                      int64(agg["sim.PoolClears"]),
+		"gc_forced_inside_library_call":     int64(agg["sim.GCForced"]),
+		"gc_forced_between_operations":      int64(agg["probes.GCBetweenOps"]),
 		"pool_non_lifo_reuse":               int64(agg["sim.PoolNonLIFO"]),
 		"preempt_inside_library":            int64(agg["sim.PreemptInLib"]),
 		"switch_at_sync_or_op_boundary":     int64(agg["sim.Switches"] - agg["sim.PreemptInLib"]),
@@ -944,6 +975,8 @@ func runProperty(prop, tier string, seed uint64) int {
 		"violations":  nViolations,
 		"coverage": map[string]any{
 			"expensive_runs_not_stuck":        budgetArtefacts,
+			"collector_processes":             gcProcesses,
+			"collector_process_runs":          int64(gcRuns),
 			"evaluations":                     int64(totalRuns),
 			"distinct_nontrivial":             int64(len(distinct)),
 			"rule":                            rule,
@@ -1127,7 +1160,13 @@ func minimiseAndVerify(b *build, prop string, vm violationMsg, seed uint64, race
 			}
 		}
 	}
-	c := exec.Command(bin, "min", "-in", raw, "-out", minOut, "-secs", "30")
+	gcoff := []string{}
+	if vm.Worker >= 200000 {
+		gcoff = []string{"-gcoff"}
+		pf0 := "collector process: automatic collections off (worker -gcoff)"
+		_ = pf0
+	}
+	c := exec.Command(bin, append([]string{"min", "-in", raw, "-out", minOut, "-secs", "30"}, gcoff...)...)
 	if vm.V.Class == "library-crash" {
 		c = exec.Command("true")
 	}
@@ -1144,7 +1183,7 @@ func minimiseAndVerify(b *build, prop string, vm violationMsg, seed uint64, race
 		if vm.Cold {
 			cold = 1
 		}
-		c2 := exec.Command(bin, "min", "-regen", fmt.Sprintf("%s,%s,%d,%d,%d,%d", prop, vm.V.Class, vm.BaseSeed, vm.Worker, vm.Run, cold), "-out", minOut, "-secs", "150")
+		c2 := exec.Command(bin, append([]string{"min", "-regen", fmt.Sprintf("%s,%s,%d,%d,%d,%d", prop, vm.V.Class, vm.BaseSeed, vm.Worker, vm.Run, cold), "-out", minOut, "-secs", "150"}, gcoff...)...)
 		c2.Env = append(goEnv(), "GORACE=halt_on_error=0 atexit_sleep_ms=0 log_path=/dev/null", fmt.Sprintf("VSIM_NCPU=%d", ncpu))
 		out, _ = c2.CombinedOutput()
 		if _, err := os.Stat(minOut); err == nil {
@@ -1170,6 +1209,7 @@ func minimiseAndVerify(b *build, prop string, vm violationMsg, seed uint64, race
 	pf["instrumented_src_sha256"] = b.Instr.SrcHash
 	pf["race_build"] = race
 	pf["proc_ncpu"] = ncpu
+	pf["gc_off"] = len(gcoff) > 0
 	pf["minimiser"] = strings.TrimSpace(string(lastLineOf(out)))
 	// verify in a fresh process, capturing the race report text if any
 	raceLog := filepath.Join(b.Dir, "race-replay-"+name)
@@ -1192,7 +1232,7 @@ func minimiseAndVerify(b *build, prop string, vm violationMsg, seed uint64, race
 			data, _ = json.MarshalIndent(pf, "", " ")
 			os.WriteFile(tmp, data, 0o644)
 		}
-		o := runWorkerCPU(bin, []string{"exec", "-in", tmp, "-trace"}, 2, raceLog, ncpu)
+		o := runWorkerCPU(bin, append([]string{"exec", "-in", tmp, "-trace"}, gcoff...), 2, raceLog, ncpu)
 		if o.stats == nil {
 			if what := libraryCrash(o.log); what != "" {
 				// the replay itself dies of a fatal runtime error inside library
@@ -1214,6 +1254,17 @@ func minimiseAndVerify(b *build, prop string, vm violationMsg, seed uint64, race
 			}
 			pf["trace"] = o.stats["trace"]
 			pf["story"] = o.stats["story"]
+		}
+	}
+	if status != "confirmed" && vm.Worker >= 100000 && vm.V.Class != "no-progress" && vm.V.Class != "library-crash" {
+		// A short-lived process (cold or collector phase): what it saw may depend
+		// on the allocator's state, which the plan file does not carry but the
+		// process recipe does - same binary, same seed, same worker number, same
+		// number of runs. Run that process again.
+		if rerunShows(bin, prop, vm, ncpu, race) {
+			status = "confirmed"
+			pf["rerun"] = map[string]any{"verif_seed": vm.BaseSeed, "worker": vm.Worker, "runs": vm.Run + 1, "cold": vm.Cold,
+				"note": "the plan file alone does not reproduce this violation (it depends on the state of the allocator / garbage collector of the process); re-running the worker process that found it does: simcheck replay does that"}
 		}
 	}
 	if vm.V.Class == "no-progress" && status != "confirmed" {
@@ -1327,6 +1378,32 @@ func crashViolation(b *build, race bool, prop string, seed uint64, o *workerOut,
 	return vm, true
 }
 
+// rerunShows runs the short-lived worker process that reported vm once more
+// and tells whether it reports a violation of the same class in the same run.
+func rerunShows(bin, prop string, vm violationMsg, ncpu int, race bool) bool {
+	// the same command line as in the search (every flag changes what the
+	// process allocates), only the number of runs is cut
+	scratch, err := os.MkdirTemp("", "cvss-sim-rerun-")
+	if err != nil {
+		return false
+	}
+	defer os.RemoveAll(scratch)
+	args := []string{"run", "-prop", prop, "-seed", fmt.Sprint(vm.BaseSeed), "-worker", fmt.Sprint(vm.Worker), "-runs", fmt.Sprint(vm.Run + 1), "-outdir", scratch}
+	if vm.Cold {
+		args = append(args, "-cold")
+	}
+	args = append(args, "-known", knownFilePath(), "-progress", filepath.Join(scratch, "progress"))
+	for try := 0; try < 3; try++ {
+		o := runWorkerCPU(bin, args, 2, "", ncpu)
+		for _, v := range o.viol {
+			if v.V.Class == vm.V.Class && v.Run == vm.Run {
+				return true
+			}
+		}
+	}
+	return false
+}
+
 // raceTouchesLibrary reports whether some stack frame of a race report lies in
 // the library copy (a function of a go-cvss package other than verifsim).
 func raceTouchesLibrary(report string) bool {
@@ -1361,6 +1438,13 @@ func cmdReplay(args []string) {
 		Race      bool      `json:"race_build"`
 		Violation violation `json:"violation"`
 		ProcNCPU  int       `json:"proc_ncpu"`
+		GCOff     bool      `json:"gc_off"`
+		Rerun     *struct {
+			Seed   uint64 `json:"verif_seed"`
+			Worker int    `json:"worker"`
+			Runs   int    `json:"runs"`
+			Cold   bool   `json:"cold"`
+		} `json:"rerun"`
 	}
 	if err := json.Unmarshal(data, &pf); err != nil {
 		die2("%s: %v", args[0], err)
@@ -1378,7 +1462,11 @@ func cmdReplay(args []string) {
 	if pf.ProcNCPU == 0 {
 		pf.ProcNCPU = 4
 	}
-	o := runWorkerCPU(bin, []string{"exec", "-in", args[0], "-trace"}, 2, raceLog, pf.ProcNCPU)
+	execArgs := []string{"exec", "-in", args[0], "-trace"}
+	if pf.GCOff {
+		execArgs = append(execArgs, "-gcoff")
+	}
+	o := runWorkerCPU(bin, execArgs, 2, raceLog, pf.ProcNCPU)
 	if o.stats == nil {
 		if what := libraryCrash(o.log); what != "" {
 			fmt.Printf("replayed: class=library-crash: %s\n%s\n", what, trunc(o.log, 3000))
@@ -1408,6 +1496,22 @@ func cmdReplay(args []string) {
 	if hit {
 		fmt.Printf("VIOLATION property=%s replay=%s\n", pf.Prop, args[0])
 		os.Exit(1)
+	}
+	if pf.Rerun != nil {
+		vm := violationMsg{Worker: pf.Rerun.Worker, Run: pf.Rerun.Runs - 1, BaseSeed: pf.Rerun.Seed, Cold: pf.Rerun.Cold}
+		vm.V.Class = pf.Violation.Class
+		b2 := doBuild("replay", "go", race, !race)
+		bin2 := b2.WorkerNR
+		if race {
+			bin2 = b2.Worker
+		}
+		ok := rerunShows(bin2, pf.Prop, vm, pf.ProcNCPU, race)
+		cleanupAll()
+		if ok {
+			fmt.Printf("replayed by re-running worker process %d (seed %d, %d runs): class=%s\n", pf.Rerun.Worker, pf.Rerun.Seed, pf.Rerun.Runs, pf.Violation.Class)
+			fmt.Printf("VIOLATION property=%s replay=%s\n", pf.Prop, args[0])
+			os.Exit(1)
+		}
 	}
 	fmt.Printf("replay of %s: violation class %q not reproduced on the current tree\n", args[0], pf.Class)
 	os.Exit(0)
